@@ -55,7 +55,7 @@ def prepare(name, bindir=None, poll_secs=1, exe="verif-agent"):
     return d, dst
 
 
-def run_rig(script, name, *, timeout=300, bindir=None):
+def run_rig(script, name, *, timeout=300, bindir=None, strace=None, keep_output=False):
     """Execute one script; returns (events, returncode, stdout+stderr tail)."""
     d, exe = prepare(name, bindir)
     script = dict(script)
@@ -66,16 +66,23 @@ def run_rig(script, name, *, timeout=300, bindir=None):
     with open(sp, "w") as f:
         json.dump(script, f)
     env = dict(os.environ, VERIF_CMD="rig", VERIF_SCRIPT=sp, VERIF_OUT=out, RUST_BACKTRACE="0")
-    cmd = ["unshare", "-n", "sh", "-c", NS_SETUP + " && exec " + exe]
+    launcher = exe
+    if strace:
+        # system-call log of the whole process tree (file names only for the requested calls)
+        launcher = "strace -f -qq -o %s -e trace=%s %s" % (os.path.join(d, "strace.log"), strace, exe)
+    cmd = ["unshare", "-n", "sh", "-c", NS_SETUP + " && exec " + launcher]
     try:
         p = subprocess.run(cmd, env=env, cwd=d, stdout=subprocess.PIPE, stderr=subprocess.STDOUT, timeout=timeout,
                            text=True, errors="replace")
     except subprocess.TimeoutExpired:
         raise util.ToolError("rig run %s timed out after %ss" % (name, timeout))
     ev = util.read_ndjson(out) if os.path.exists(out) else []
+    if keep_output:
+        with open(os.path.join(d, "stdout.txt"), "w") as f:
+            f.write(p.stdout or "")
     if p.returncode not in (0,):
         raise util.ToolError("rig run %s failed rc=%s:\n%s" % (name, p.returncode, p.stdout[-3000:]))
-    if not ev or ev[-1].get("e") != "Done":
+    if not any(e.get("e") == "Done" for e in ev[-50:]):
         raise util.ToolError("rig run %s: trace incomplete (%d events)\n%s" % (name, len(ev), p.stdout[-2000:]))
     return ev, d, p.stdout
 
